@@ -847,3 +847,107 @@ def whitespace_sites(run, ctx):
         if not H.find_pat(co, "b'(' if {b}[{ix}..].starts_with(\"(?#\") =>"):
             run.violation(fam, label, "comment-group", H.where(ow), "(?#...) comments are skipped in every mode; shape not found")
     run.ok(fam, label, "src/parse.rs", n, "%d whitespace/comment skip sites at the confirmed token boundaries" % n)
+
+
+def whitespace_advance(run, ctx):
+    """C06: optional_whitespace guards `bytes[ix]` with an EQUALITY test against the length, which protects the access
+    only if no advance of the index can step past the end.  Every `ix += R` is therefore matched against the bytes
+    that were examined before it (seed C06-r6-1: `ix += position(..).unwrap_or(rest.len()) + 1` steps to len + 1 on
+    an unterminated trailing `#` comment and the next `bytes[ix]` panics).  If every loop of the function tests
+    `ix >= len` instead, overshooting is harmless and nothing more is demanded."""
+    import re as _re
+    fam, label = "PARSE", "whitespace-advance"
+    fn = _fn(run, ctx, "optional_whitespace", fam, label)
+    if fn is None:
+        return
+    IX = fn["params"][1].get("name")
+    LEN = "len(self.re)"
+    loops = []      # (loop node, guard kind)
+    adv = []        # (node, ancestors)
+
+    def rec(n, anc):
+        if isinstance(n, dict):
+            k = n.get("k")
+            if k == "Loop":
+                loops.append(n)
+            if k == "AssignOp" and H.canon(n["l"]) == IX:
+                adv.append((n, list(anc)))
+            if k == "Assign" and H.canon(n["l"]) == IX:
+                adv.append((n, list(anc)))
+            anc.append(n)
+            if k == "Match":
+                rec(n["scrut"], anc)
+                for a in n["arms"]:
+                    anc.append({"k": "_Arm", "arm": a, "match": n})
+                    rec(a.get("guard"), anc)
+                    rec(a["body"], anc)
+                    anc.pop()
+            else:
+                for key, v in n.items():
+                    if key not in ("span", "ty"):
+                        rec(v, anc)
+            anc.pop()
+        elif isinstance(n, list):
+            for v in n:
+                rec(v, anc)
+    rec(fn["body"], [])
+    if not loops:
+        run.violation(fam, label, "anchor-missing/loop", H.where(fn), "anchor-missing: optional_whitespace has no loop")
+        return
+
+    def guard_kind(lp):
+        st = lp["body"].get("stmts", [])
+        c0 = H.canon(st[0]) if st else H.canon(lp["body"].get("expr") or {})
+        if c0.startswith("if (%s <= %s) {return" % (LEN, IX)):
+            return "ge"
+        if c0.startswith("if (%s == %s) {return" % (IX, LEN)) or c0.startswith("if (%s == %s) {return" % (LEN, IX)):
+            return "eq"
+        return None
+    kinds = [guard_kind(lp) for lp in loops]
+    if any(k is None for k in kinds):
+        run.violation(fam, label, "no-guard", H.where(fn), "every loop of optional_whitespace must begin by comparing the index with the pattern length and returning before `bytes[ix]` is read (found %s)" % kinds)
+        return
+    if all(k == "ge" for k in kinds):
+        run.ok(fam, label, H.where(fn), len(loops), "every loop tests `ix >= len` before the byte access")
+        return
+    per_arm = {}
+    for nd, anc in adv:
+        # ancestors up to the nearest enclosing loop
+        li = max(i for i, a in enumerate(anc) if a.get("k") == "Loop") if any(a.get("k") == "Loop" for a in anc) else -1
+        inner = anc[li + 1:]
+        arms = [a for a in inner if a.get("k") == "_Arm"]
+        R = H.canon(nd["r"]) if nd["k"] == "AssignOp" else None
+        op = nd.get("op", "")
+        why = None
+        if nd["k"] == "AssignOp" and "Add" in op:
+            examined = any(H.pat_match("{b}[%s]" % IX, H.canon(a["match"]["scrut"])) for a in arms)
+            if R == "1" and examined:
+                why = "one byte examined"
+            m = _re.fullmatch(r"\d+", R or "")
+            if why is None and m and int(R) >= 1:
+                N = int(R)
+                for a in arms:
+                    g = H.canon(a["arm"].get("guard") or {}) if a["arm"].get("guard") else ""
+                    ms = _re.search(r'\[%s\.\.\]\.starts_with\("((?:[^"\\]|\\.)*)"\)' % _re.escape(IX), g)
+                    if ms and len(ms.group(1)) >= N and "\\" not in ms.group(1):
+                        why = "%d-byte prefix tested" % N
+                    if N >= 2 and "((%d + %s) < %s)" % (N - 1, IX, LEN) in g and examined:
+                        why = "ix + %d < len tested" % (N - 1)
+            if why is None:
+                for a in arms:
+                    pt = a["arm"]["pat"]
+                    xs = [q.get("name") for q in pt.get("pats", [])] if pt.get("k") == "TupleStructPat" and pt.get("variant") == "Some" else []
+                    sc = H.canon(a["match"]["scrut"])
+                    if len(xs) == 1 and xs[0] and R in ("(1 + %s)" % xs[0], xs[0]) and _re.match(r"\w+\[%s\.\.\]\.iter\(\)\.position\(" % _re.escape(IX), sc):
+                        why = "offset of a byte found in bytes[ix..]"
+        if why is None:
+            run.violation(fam, label, "advance", H.where(nd), "optional_whitespace advances its index by `%s` without having examined that many bytes; the loop guards `bytes[%s]` only with `%s == len`, so an index past the end panics (compile must not panic on any pattern)" % (H.canon(nd)[:100], IX, IX))
+            continue
+        key = (id(anc[li]) if li >= 0 else 0, id(arms[-1]["arm"]) if arms else 0)
+        per_arm[key] = per_arm.get(key, 0) + 1
+    for key, c in per_arm.items():
+        if c > 1:
+            run.violation(fam, label, "advance-twice", H.where(fn), "two advances of the index on one arm of one loop iteration: the second is not covered by the bytes examined")
+    if len(adv) < 3:
+        run.violation(fam, label, "anchor-missing/advances", H.where(fn), "anchor-missing: expected at least 3 index advances in optional_whitespace, found %d" % len(adv))
+    run.ok(fam, label, H.where(fn), len(adv), "every index advance is covered by bytes examined in the same iteration (equality guard before bytes[ix])")
